@@ -110,6 +110,12 @@ def op_block_if_false_token(g, cond):
         yield "c"
 
 
+def op_block_under_leaf(g, cond):
+    # a block whose header is covered by a LEAF rule of the ACL: the nested line is not covered
+    with g.block("a"):
+        yield "c"
+
+
 OPS = [
     (op_noop, lambda c: []),
     (op_a, lambda c: [("a",)]),
@@ -125,12 +131,13 @@ OPS = [
     (op_block_default_if, lambda c: [("b 1",), ("b 1", "c")] if c else [("c",)]),
     (op_block_if_zero, lambda c: [("area 0",), ("area 0", "network x")]),
     (op_block_if_false_token, lambda c: [("unit 0",), ("unit 0", "c")] if c else [("c",)]),
+    (op_block_under_leaf, lambda c: [("a",), ("a", "c")]),
 ]
 
 # programs: (ops..., cond)
 PROGS = [(i,) for i in range(len(OPS))] + [
     (1, 3), (3, 4), (4, 3), (5, 1), (6, 3), (7, 2), (3, 8), (9, 3), (10, 1), (1, 9), (2, 2), (3, 3),
-    (1, 3, 5), (3, 6, 4), (10, 9, 1), (7, 4, 6), (5, 10, 3), (11, 1), (11, 3, 9), (2, 11, 5), (12, 1), (13, 3),
+    (1, 3, 5), (3, 6, 4), (10, 9, 1), (7, 4, 6), (5, 10, 3), (11, 1), (11, 3, 9), (2, 11, 5), (12, 1), (13, 3), (14,), (14, 3),
 ]
 PROGS = [(p, True) for p in PROGS] + [(p, False) for p in PROGS if 5 in p or 11 in p or 13 in p]
 PROGS_Q = PROGS[:24] + PROGS[-6:]
@@ -141,6 +148,8 @@ ACLS = [
     "g ~ %global\ns *\n    ~ %global\na\n",
     "a %cant_delete=1\nb * %cant_delete=1\n    c\n    e\n    d *\n    n *\n        c\n",
     "",
+    # written with a deeper base indentation than the other generators' ACL literals
+    "            g ~ %global\n            s *\n                ~ %global\n            a\n            interface *\n                mtu\n",
     "b *\n    ~ %global\ninterface * %cant_delete=0\n    mtu\nmtu\nc\n",
 ]
 
@@ -310,7 +319,7 @@ def _exclusive_conflict(tree, level, path=()):
 
 
 PG = PROGS
-NA = 5 if rt.TIER == "quick" else len(ACLS)
+NA = 6 if rt.TIER == "quick" else len(ACLS)
 RAD = [len(PG), NA, len(PG), NA]
 NCASE = RAD[0] * RAD[1] * RAD[2] * RAD[3]
 LO, HI = rt.shard_range(NCASE)
